@@ -386,6 +386,30 @@ def call_method(engine, st, fr, recv, mname, args, kwargs, star, starkw, node):
             yield st, getattr(recv, name)(*a)            # a concrete string method on concrete operands
         else:
             yield st, Z(Val.strv(fresh("strm", I)), "str")
+    elif kind in ("lock", "rlock") and name in ("acquire", "release"):
+        # explicit X.acquire() / X.release() (the try/finally spelling of `with X:`): same rules as the with statement - interference
+        # and the region invariant assumed at acquisition, monitor invariant obliged at the final release
+        from . import b_ctrl
+        owner, lf = None, None
+        f = node.func if node is not None and isinstance(node, ast.Call) else None
+        if isinstance(f, ast.Attribute) and isinstance(f.value, ast.Attribute):
+            outs = list(engine.ev(f.value.value, st, fr))
+            if len(outs) == 1 and isinstance(outs[0][1], Z):
+                st, owner = outs[0]
+                owner = engine.resolve(st, owner)
+                if isinstance(owner, Z) and isinstance(owner.ty, tuple) and owner.ty[0] == "opt":
+                    owner = Z(owner.t, owner.ty[1])
+                if not isinstance(owner, Z):
+                    owner = None
+            from .symexec import mangle
+            lf = mangle(f.value.attr, fr.func.owner) if fr.func is not None else f.value.attr
+        lf = lf or (engine.label(f.value) if f is not None else "lock")
+        if name == "acquire":
+            b_ctrl.acquire(engine, st, fr, recv, owner, lf, node)
+            yield st, True
+        else:
+            b_ctrl.release(engine, st, fr, recv, owner, lf, node)
+            yield st, None
     elif kind == "any":
         for r in b_future.opaque_call(engine, st, fr, Bound(recv, name), a, kwargs, star, starkw, node):
             yield r
